@@ -233,7 +233,9 @@ func planScreen(rng *rand.Rand, nops int, w, h int, mix string, rich bool, hasCa
 				add(sop{Op: "SetContent", X: x0 + i, Y: y, R: 'u', St: st})
 			}
 			add(sop{Op: "Show"})
-		case k < 45 && len(last) > 0 && rng.Intn(40) == 0:
+		case k < 45 && len(last) > 0 && mix != "legacy" && rng.Intn(40) == 0:
+			// (UTF-8 only: in a legacy locale a fallback change shows when a cell is next drawn, and cells already on
+			// the display keep their old substitute until then - the legacy mix follows every change by a Sync)
 			// a fallback registered or removed for a rune that is on the screen: in a UTF-8 locale nothing changes,
 			// and nothing may be repainted for it
 			o := last[rng.Intn(len(last))]
